@@ -864,6 +864,26 @@ theorem C05_recoveryScan_not_behind_skipInstance (pre a b : List Byte) (sk : Boo
   rw [hm2]
   omega
 
+/-- The one-record slip, hypothesis of `C05_readInstance_slip_partial`, proved for the scan: when the give-up character was the
+record's own `;` the scan starts right behind it (`a ;` already passed) and ends with the **next** `;` on the stream — and two
+successful `SkipInstance`s from the record's start (its end, then the end of the next record) have left no more than what
+follows that second `;`: the scan never ends behind the end of the next record. -/
+theorem C05_recoveryScan_slip_within_next_record (pre a a2 b : List Byte) (sk : Bool) (F : Nat) (rs rs2 : LoopRes)
+    (ha : ∀ x ∈ a, x ≠ chSemi) (ha2 : ∀ x ∈ a2, x ≠ chSemi) (hF : (a ++ chSemi :: (a2 ++ chSemi :: b)).length + 2 ≤ F)
+    (h1 : skipInstance C05.skipInstanceSkipsComments C05.readCommentIters F
+            ⟨pre, a ++ chSemi :: (a2 ++ chSemi :: b), false, false, sk⟩ = .ok rs) (hs1 : rs.sev = sevNull)
+    (h2 : skipInstance C05.skipInstanceSkipsComments C05.readCommentIters F rs.s = .ok rs2) (hs2 : rs2.sev = sevNull) :
+    ∃ r, recoveryScan true false true (a2.length + 2) ⟨chSemi :: (a.reverse ++ pre), a2 ++ chSemi :: b, false, false, sk⟩ chSemi = .ok r ∧
+      r.s.rest = chSemi :: b ∧ r.s.good = true ∧ rs2.s.m ≤ r.s.m := by
+  obtain ⟨p', l', st', hr⟩ := C05_recoveryScan_never_passes_semicolon (chSemi :: (a.reverse ++ pre)) a2 b false false sk chSemi ha2
+  obtain ⟨_, hlen⟩ := skipInstance_twice pre a a2 b sk _ _ F rs rs2 ha ha2 hF h1 hs1 h2 hs2
+  refine ⟨_, hr, rfl, by simp [IS.good], ?_⟩
+  have : rs2.s.m ≤ rs2.s.rest.length + 1 := IS.m_le rs2.s
+  have hm2 : (⟨p', chSemi :: b, false, false, sk⟩ : IS).m = b.length + 2 := by simp [IS.m]
+  show rs2.s.m ≤ (⟨p', chSemi :: b, false, false, sk⟩ : IS).m
+  rw [hm2]
+  omega
+
 /-- the same for `ReadTokenSeparator` (white space, comments, print control directives) -/
 theorem C05_readTokenSeparator_suffix (s : IS) (r : LoopRes)
     (h : readTokenSeparator C05.skipInstanceSkipsComments C05.readCommentIters (s.rest.length + 2) s = .ok r) (hf : r.s.fail = false) :
